@@ -56,12 +56,13 @@ type inlineHelper struct {
 }
 
 type inlineSite struct {
-	file    string
-	callOff int
-	kind    string // stmt | go | value | expr
-	helper  *inlineHelper
-	conv    []bool // argument i is an untyped constant or nil: wrap it in a conversion to the parameter's type
-	bind    []bool // argument i is not side-effect free: it is evaluated once into a fresh local in front of the expansion
+	file     string
+	callOff  int
+	kind     string // stmt | go | value | expr
+	helper   *inlineHelper
+	conv     []bool // argument i is an untyped constant or nil: wrap it in a conversion to the parameter's type
+	bind     []bool // argument i is not side-effect free: it is evaluated once into a fresh local in front of the expansion
+	recvAddr bool   // the receiver expression is an addressable value (x.m() with m on *T): substitute &x
 }
 
 // simpleArg: evaluating the argument has no effect and may be repeated or dropped.
@@ -504,6 +505,7 @@ func planInlining(c *Ctx) []inlineSite {
 				}
 				var target types.Object
 				var recvExpr ast.Expr
+				recvAddr := false
 				switch fn := ast.Unparen(call.Fun).(type) {
 				case *ast.Ident:
 					target = info.Uses[fn]
@@ -532,7 +534,12 @@ func planInlining(c *Ctx) []inlineSite {
 						return true
 					}
 					if _, isPtr := info.TypeOf(recvExpr).(*types.Pointer); !isPtr {
-						return true
+						// x.m() with m declared on *T and x an addressable local variable: Go takes &x implicitly
+						rv, isVar := identObj(info, recvExpr).(*types.Var)
+						if !isVar || rv.IsField() || rv.Pkg() == nil || rv.Parent() == rv.Pkg().Scope() {
+							return true
+						}
+						recvAddr = true
 					}
 				}
 				bind := make([]bool, len(call.Args))
@@ -619,6 +626,13 @@ func planInlining(c *Ctx) []inlineSite {
 						}
 					}
 				}
+				if as, isAs := parent.(*ast.AssignStmt); kind == "" && isAs && len(stack) >= 3 && as.Tok == token.DEFINE && len(as.Rhs) == 1 && as.Rhs[0] == ast.Expr(call) {
+					// `if x := h(a); cond { .. }`: move the initialiser in front of the if, inside a block of
+					// its own (same scope for x); the next round expands the plain assignment
+					if is, isIf := stack[len(stack)-3].(*ast.IfStmt); isIf && is.Init == ast.Stmt(as) && inList(is) {
+						kind = "ifinit"
+					}
+				}
 				if kind == "" && h.singleExpr && !anyBind {
 					kind = "expr"
 				}
@@ -678,7 +692,7 @@ func planInlining(c *Ctx) []inlineSite {
 				if kind == "" {
 					return true
 				}
-				if kind == "hoist" {
+				if kind == "hoist" || kind == "ifinit" {
 					sites = append(sites, inlineSite{file: fname, callOff: c.Fset.Position(call.Pos()).Offset, kind: kind, helper: h})
 					return true
 				}
@@ -744,7 +758,7 @@ func planInlining(c *Ctx) []inlineSite {
 						conv[i] = true
 					}
 				}
-				sites = append(sites, inlineSite{file: fname, callOff: c.Fset.Position(call.Pos()).Offset, kind: kind, helper: h, conv: conv, bind: bind})
+				sites = append(sites, inlineSite{file: fname, callOff: c.Fset.Position(call.Pos()).Offset, kind: kind, helper: h, conv: conv, bind: bind, recvAddr: recvAddr})
 				return true
 			})
 		}
@@ -965,6 +979,10 @@ func expandSite(s inlineSite, files map[string]*parsedFile) bool {
 		var a ast.Expr
 		if idx == -1 {
 			a = recvExpr
+			if s.recvAddr && a != nil {
+				a = &ast.UnaryExpr{Op: token.AND, X: cloneAST(recvExpr, cf.fset, nil, nil).(ast.Expr)}
+				return paren(a)
+			}
 		} else if idx < len(args) {
 			a = args[idx]
 		}
@@ -1061,6 +1079,25 @@ func expandSite(s inlineSite, files map[string]*parsedFile) bool {
 		keepClosureVarUsed(hf, hn)
 	}
 	switch s.kind {
+	case "ifinit":
+		var target *ast.IfStmt
+		ast.Inspect(cf.file, func(n ast.Node) bool {
+			if is, ok := n.(*ast.IfStmt); ok && is.Init != nil {
+				if as, ok := is.Init.(*ast.AssignStmt); ok && len(as.Rhs) == 1 && as.Rhs[0] == ast.Expr(call) {
+					target = is
+				}
+			}
+			return target == nil
+		})
+		if target == nil {
+			return false
+		}
+		init := target.Init
+		target.Init = nil
+		blk := &ast.BlockStmt{List: []ast.Stmt{init, nil}}
+		cp := *target
+		blk.List[1] = &cp
+		return replaceStmt(target, []ast.Stmt{blk})
 	case "hoist":
 		// innermost statement of a statement list that contains the call
 		var host ast.Stmt
@@ -1453,7 +1490,7 @@ func buildInlinedOverlay(c *Ctx, base map[string][]byte) (map[string][]byte, int
 		if expandSite(s, files) {
 			n++
 			changed[s.file] = true
-			if !s.helper.isLit && s.kind != "hoist" {
+			if !s.helper.isLit && s.kind != "hoist" && s.kind != "ifinit" {
 				expandedHelpers[s.helper.file+"|"+s.helper.name] = true
 			}
 		}
